@@ -1129,7 +1129,7 @@ def gen_composition(rng, T, depth, flags=None, top=True):
 
     kinds = ["leaf", "compose", "compose", "random_apply", "scheduled"]
     if is_img(Ts) and not (flags.get("preserve") and Ts["kind"] == "pil"):
-        if [d for d in _divisors(math.gcd(Ts["h"], Ts["w"])) if d <= 16]:
+        if _patch_sizes(Ts):
             kinds += ["patchwise", "patchwise"]
     if Ts["kind"] == "semseg":
         kinds = ["leaf", "random_apply", "scheduled"] + (["semseg_seq", "semseg_seq"] if top else [])
@@ -1177,8 +1177,7 @@ def gen_composition(rng, T, depth, flags=None, top=True):
         return {"t": "scheduled", "child": child, "schedule": schedule, "active": active, "in": Ts}, outT
 
     if kind == "patchwise":
-        ds = [d for d in _divisors(math.gcd(Ts["h"], Ts["w"])) if d <= 16]
-        p = rng.choice(ds)
+        p = rng.choice(_patch_sizes(Ts))
         Tp = t_img("tensor", Ts["c"], p, p)
         if Ts.get("alias"):
             Tp["alias"] = True
@@ -1198,6 +1197,13 @@ def gen_composition(rng, T, depth, flags=None, top=True):
                 break
         return {"t": "semseg_seq", "members": members, "in": Ts}, cur
     raise ValueError(kind)
+
+
+MAX_PATCHES = 24  # the member of a PatchwiseTransform is called once per patch: bounds the cost of a case
+
+
+def _patch_sizes(T):
+    return [d for d in _divisors(math.gcd(T["h"], T["w"])) if d <= 16 and (T["h"] // d) * (T["w"] // d) <= MAX_PATCHES]
 
 
 def _gen_preserving(rng, T, depth, flags):
